@@ -711,6 +711,11 @@ func (u *Unmarshaler) processFieldWithEnvValue(fieldType reflect.Type, value ref
 		value.SetBool(val)
 		return nil
 	case durationType.Kind():
+		// durationType.Kind() 就是 Int64：只有 time.Duration 才按时长文本解析，普通 int64 字段按数值处理
+		if fieldType != durationType {
+			return u.processFieldPrimitiveWithJSONNumber(fieldType, value, json.Number(envVal), opts, fullName)
+		}
+
 		if err := fillDurationValue(fieldKind, value, envVal); err != nil {
 			return fmt.Errorf("用环境变量解组字段 %q 出错，%w", fullName, err)
 		}
